@@ -342,3 +342,182 @@ Qed.
 
 Lemma valid_rw : forall p e k, dom p e = true -> valid e = true -> site_in_iter p e = false -> valid (fst (rw p k e)) = true.
 Proof. intros p e k Hd Hv Hs. apply (proj1 (valid_rw_all p) e Hd false [] k); auto. discriminate. Qed.
+
+(* ---- the temporaries introduced by a rewriting are numbered from its counter and pairwise distinct *)
+Definition in_rng (k k' : nat) (x : name) : bool :=
+  match x with NTmp n _ => Nat.leb k n && Nat.ltb n k' | _ => false end.
+
+Lemma in_rng_tmp : forall k k' n key, in_rng k k' (NTmp n key) = true -> k <= n < k'.
+Proof.
+  intros k k' n key H. simpl in H. apply andb_true_iff in H. destruct H as [H1 H2].
+  apply Nat.leb_le in H1. apply Nat.ltb_lt in H2. lia.
+Qed.
+Lemma in_rng_intro : forall k k' n key, k <= n < k' -> in_rng k k' (NTmp n key) = true.
+Proof. intros. simpl. apply andb_true_iff. split; [apply Nat.leb_le | apply Nat.ltb_lt]; lia. Qed.
+Lemma in_rng_widen : forall k k' a b x, in_rng k k' x = true -> a <= k -> k' <= b -> in_rng a b x = true.
+Proof.
+  intros k k' a b x H Ha Hb. destruct x; try (simpl in H; discriminate). apply in_rng_tmp in H. apply in_rng_intro. lia.
+Qed.
+Lemma in_rng_disj : forall a b c x, in_rng a b x = true -> in_rng b c x = true -> False.
+Proof.
+  intros a b c x H1 H2. destruct x; try (simpl in H1; discriminate). apply in_rng_tmp in H1. apply in_rng_tmp in H2. lia.
+Qed.
+
+Lemma NoDup_app_disj : forall A (a b : list A), NoDup a -> NoDup b -> (forall x, In x a -> In x b -> False) -> NoDup (a ++ b).
+Proof.
+  induction a; simpl; intros; auto. inversion H; subst. constructor.
+  - intros Hin. apply in_app_or in Hin. destruct Hin; [contradiction | eapply H1; eauto].
+  - apply IHa; auto. intros. eapply H1; eauto.
+Qed.
+
+Lemma Forall_widen : forall k k' a b l, Forall (fun x => in_rng k k' x = true) l -> a <= k -> k' <= b ->
+  Forall (fun x => in_rng a b x = true) l.
+Proof. intros k k' a b l H Ha Hb. eapply Forall_impl; [|exact H]. intros x Hx. simpl in Hx. exact (in_rng_widen k k' a b x Hx Ha Hb). Qed.
+
+Lemma seq2 : forall k k1 k2 (a b : list name),
+  Forall (fun x => in_rng k k1 x = true) a /\ NoDup a -> Forall (fun x => in_rng k1 k2 x = true) b /\ NoDup b ->
+  k <= k1 -> k1 <= k2 -> Forall (fun x => in_rng k k2 x = true) (a ++ b) /\ NoDup (a ++ b).
+Proof.
+  intros k k1 k2 a b [Fa Na] [Fb Nb] H1 H2. split.
+  - apply Forall_app. split; eapply Forall_widen; eauto.
+  - apply NoDup_app_disj; auto. intros x Ia Ib. rewrite Forall_forall in Fa, Fb. eapply in_rng_disj; eauto.
+Qed.
+
+Lemma tmp_targets_eapp : forall a b, tmp_targets_list (eapp a b) = tmp_targets_list a ++ tmp_targets_list b.
+Proof. induction a; simpl; intros; auto. rewrite IHa. apply app_assoc. Qed.
+Lemma tmp_targets_tmp_args : forall n i a, tmp_targets_args (tmp_args n i a) = [].
+Proof. intros n i a. revert i. induction a; simpl; intros; auto. Qed.
+Lemma tmp_targets_tmp_kws : forall n a, tmp_targets_kws (tmp_kws n a) = [].
+Proof. induction a; simpl; intros; auto. Qed.
+
+Definition site_rng (k k' : nat) (own : name -> Prop) (x : name) : Prop := in_rng k k' x = true \/ own x.
+
+Lemma tmp_targets_all : forall p,
+  (forall e, dom p e = true -> forall k,
+      Forall (fun x => in_rng k (snd (rw p k e)) x = true) (tmp_targets (fst (rw p k e))) /\ NoDup (tmp_targets (fst (rw p k e)))) /\
+  (forall es, dom_list p es = true -> forall k,
+      Forall (fun x => in_rng k (snd (rw_list p k es)) x = true) (tmp_targets_list (fst (rw_list p k es))) /\
+      NoDup (tmp_targets_list (fst (rw_list p k es)))) /\
+  (forall a, dom_args p a = true -> forall k,
+      (Forall (fun x => in_rng k (snd (rw_args p k a)) x = true) (tmp_targets_args (fst (rw_args p k a))) /\
+       NoDup (tmp_targets_args (fst (rw_args p k a)))) /\
+      (forall n i, n < k ->
+         Forall (site_rng k (snd (rw_pos p n i k a)) (fun x => exists j, i <= j /\ x = NTmp n (KPos j)))
+                (tmp_targets_list (fst (rw_pos p n i k a))) /\
+         NoDup (tmp_targets_list (fst (rw_pos p n i k a))))) /\
+  (forall a, dom_kws p a = true -> forall k,
+      (Forall (fun x => in_rng k (snd (rw_kws p k a)) x = true) (tmp_targets_kws (fst (rw_kws p k a))) /\
+       NoDup (tmp_targets_kws (fst (rw_kws p k a)))) /\
+      (forallb (kw_named_ok p) (kw_keys a) = true -> nodup_kwnames (kw_keys a) = true -> forall n, n < k ->
+         Forall (site_rng k (snd (rw_kwparts p n k a)) (fun x => exists o, In o (kw_keys a) /\ x = NTmp n (KKw o)))
+                (tmp_targets_list (fst (rw_kwparts p n k a))) /\
+         NoDup (tmp_targets_list (fst (rw_kwparts p n k a))))).
+Proof.
+  intros p. apply expr_mutind; intros; simpl in *; try (split; constructor; fail).
+  - (* EAttr *) dlet; nrm; simpl. auto.
+  - (* EBin *) bsplit. dlet; nrm; simpl.
+    eapply seq2; [apply H | apply H0 | apply rw_mono | apply rw_mono]; assumption.
+  - (* EBool *) dlet; nrm; simpl. auto.
+  - (* EIf *) bsplit. dlet; nrm; simpl.
+    eapply seq2; [apply H; assumption | | apply rw_mono |].
+    + eapply seq2; [apply H0 | apply H1 | apply rw_mono | apply rw_mono]; assumption.
+    + pose proof (rw_mono p a (snd (rw p k c))). pose proof (rw_mono p b (snd (rw p (snd (rw p k c)) a))). lia.
+  - (* ECall *)
+    destruct (site p f) eqn:Es; [destruct (has_star ar) eqn:Est|]; bsplit; dlet; nrm; simpl.
+    + eapply seq2; [apply H; assumption | | apply rw_mono |].
+      * eapply seq2; [apply (H0 ltac:(assumption)) | apply (H1 ltac:(assumption)) | apply rw_args_mono | apply rw_kws_mono].
+      * pose proof (rw_args_mono p ar (snd (rw p k f))). pose proof (rw_kws_mono p kw (snd (rw_args p (snd (rw p k f)) ar))). lia.
+    + (* handled site *)
+      assert (Hself : tmp_targets_args (self_arg p (tmp_args k 0 ar)) = []).
+      { unfold self_arg. destruct (a_method (p_anal p)); simpl; apply tmp_targets_tmp_args. }
+      rewrite Hself, tmp_targets_tmp_kws, !app_nil_r.
+      assert (Hcode : forall cn es, tmp_targets_list (code_part p cn es) = tmp_targets_list es) by (intros [] es; reflexivity).
+      rewrite Hcode, tmp_targets_eapp.
+      set (k1 := snd (rw_pos p k 0 (S k) ar)). set (k2 := snd (rw_kwparts p k k1 kw)).
+      destruct (proj2 (H0 ltac:(assumption) (S k)) k 0 ltac:(lia)) as [Fp Np]. fold k1 in Fp.
+      assert (Hk1 : S k <= k1) by apply rw_pos_mono.
+      assert (Hk2 : k1 <= k2) by apply rw_kwparts_mono.
+      destruct (proj2 (H1 ltac:(assumption) k1) ltac:(assumption) ltac:(assumption) k ltac:(lia)) as [Fk Nk]. fold k2 in Fk.
+      rewrite Forall_forall in Fp, Fk. split.
+      * apply Forall_forall. intros x Hx. apply in_app_or in Hx. destruct Hx as [Hx|Hx].
+        -- destruct (Fp _ Hx) as [Hr | (j & _ & ->)]; [eapply in_rng_widen; eauto; lia|].
+           apply in_rng_intro. lia.
+        -- destruct (Fk _ Hx) as [Hr | (o & _ & ->)]; [eapply in_rng_widen; eauto; lia|].
+           apply in_rng_intro. lia.
+      * apply NoDup_app_disj; auto. intros x Ha Hb.
+        destruct (Fp _ Ha) as [Hr | (j & _ & ->)]; destruct (Fk _ Hb) as [Hr' | (o & _ & Heq)].
+        -- exact (in_rng_disj _ _ _ _ Hr Hr').
+        -- subst x. apply in_rng_tmp in Hr. lia.
+        -- apply in_rng_tmp in Hr'. lia.
+        -- discriminate.
+    + eapply seq2; [apply H; assumption | | apply rw_mono |].
+      * eapply seq2; [apply (H0 ltac:(assumption)) | apply (H1 ltac:(assumption)) | apply rw_args_mono | apply rw_kws_mono].
+      * pose proof (rw_args_mono p ar (snd (rw p k f))). pose proof (rw_kws_mono p kw (snd (rw_args p (snd (rw p k f)) ar))). lia.
+  - (* ENamed *) bsplit. dlet; nrm; simpl.
+    match goal with Hb : binder_ok _ _ = true |- _ => destruct (binder_ok_user _ _ Hb) as (i & -> & Hr & _) end.
+    rewrite Hr. simpl. auto.
+  - (* ELam *) bsplit. dlet; nrm; simpl. auto.
+  - (* EComp *) bsplit. dlet; nrm; simpl.
+    eapply seq2; [apply H; assumption | | apply rw_mono |].
+    + eapply seq2; [apply H0 | apply H1 | apply rw_mono | apply rw_list_mono]; assumption.
+    + pose proof (rw_mono p it (snd (rw p k elt))). pose proof (rw_list_mono p conds (snd (rw p (snd (rw p k elt)) it))). lia.
+  - (* EFstr *) dlet; nrm; simpl. auto.
+  - (* EEffect *) dlet; nrm; simpl. auto.
+  - (* ETuple *) dlet; nrm; simpl. auto.
+  - (* ESub *) bsplit. dlet; nrm; simpl.
+    eapply seq2; [apply H | apply H0 | apply rw_mono | apply rw_mono]; assumption.
+  - (* ECons *) bsplit. dlet; nrm; simpl.
+    eapply seq2; [apply H | apply H0 | apply rw_mono | apply rw_list_mono]; assumption.
+  - (* ANil *) split; [split; constructor|]. intros. split; constructor.
+  - (* ACons *) bsplit. split.
+    + dlet; nrm; simpl. eapply seq2; [apply H; assumption | apply (H0 ltac:(assumption)) | apply rw_mono | apply rw_args_mono].
+    + intros n i Hn. dlet; nrm; simpl.
+      destruct (H ltac:(assumption) k) as [Fe Ne].
+      pose proof (rw_mono p e k) as Hm1.
+      destruct (proj2 (H0 ltac:(assumption) (snd (rw p k e))) n (S i) ltac:(lia)) as [Fr Nr].
+      pose proof (rw_pos_mono p r n (S i) (snd (rw p k e))) as Hm2.
+      rewrite ?app_nil_r; simpl; rewrite ?app_nil_r. rewrite Forall_forall in Fe, Fr. split.
+      * constructor; [right; exists i; auto|]. apply Forall_forall. intros x Hx. apply in_app_or in Hx. destruct Hx as [Hx|Hx].
+        -- left. eapply in_rng_widen; [apply (Fe _ Hx) | lia | lia].
+        -- destruct (Fr _ Hx) as [Hr | (j & Hj & ->)]; [left; eapply in_rng_widen; eauto; lia | right; exists j; split; [lia | reflexivity]].
+      * constructor.
+        -- intros Hin. apply in_app_or in Hin. destruct Hin as [Hx|Hx].
+           ++ specialize (Fe _ Hx). apply in_rng_tmp in Fe. lia.
+           ++ destruct (Fr _ Hx) as [Hr | (j & Hj & Heq)].
+              ** apply in_rng_tmp in Hr. lia.
+              ** injection Heq as Heq. lia.
+        -- apply NoDup_app_disj; auto. intros x Ha Hb. specialize (Fe _ Ha).
+           destruct (Fr _ Hb) as [Hr | (j & Hj & ->)]; [exact (in_rng_disj _ _ _ _ Fe Hr)|].
+           apply in_rng_tmp in Fe. lia.
+  - (* KNil *) split; [split; constructor|]. intros. split; constructor.
+  - (* KCons *) bsplit. split.
+    + dlet; nrm; simpl. eapply seq2; [apply H; assumption | apply (H0 ltac:(assumption)) | apply rw_mono | apply rw_kws_mono].
+    + intros Hnamed Hnodup n Hn. dlet; nrm; simpl.
+      apply andb_true_iff in Hnamed. destruct Hnamed as [Hk Hnamed]. destruct k as [kn|]; [|discriminate].
+      simpl in Hnodup. apply andb_true_iff in Hnodup. destruct Hnodup as [Hfresh Hnodup]. apply negb_true_iff in Hfresh.
+      destruct (H ltac:(assumption) k0) as [Fe Ne].
+      pose proof (rw_mono p e k0) as Hm1.
+      destruct (proj2 (H0 ltac:(assumption) (snd (rw p k0 e))) Hnamed Hnodup n ltac:(lia)) as [Fr Nr].
+      pose proof (rw_kwparts_mono p r n (snd (rw p k0 e))) as Hm2.
+      rewrite ?app_nil_r; simpl; rewrite ?app_nil_r. rewrite Forall_forall in Fe, Fr. split.
+      * constructor; [right; exists (Some kn); auto|]. apply Forall_forall. intros x Hx. apply in_app_or in Hx. destruct Hx as [Hx|Hx].
+        -- left. eapply in_rng_widen; [apply (Fe _ Hx) | lia | lia].
+        -- destruct (Fr _ Hx) as [Hr | (o & Ho & ->)]; [left; eapply in_rng_widen; eauto; lia | right; exists o; auto].
+      * constructor.
+        -- intros Hin. apply in_app_or in Hin. destruct Hin as [Hx|Hx].
+           ++ specialize (Fe _ Hx). apply in_rng_tmp in Fe. lia.
+           ++ destruct (Fr _ Hx) as [Hr | (o & Ho & Heq)].
+              ** apply in_rng_tmp in Hr. lia.
+              ** injection Heq as <-. clear -Ho Hfresh. induction (kw_keys r); simpl in *; auto.
+                 apply orb_false_iff in Hfresh. destruct Hfresh as [F1 F2]. destruct Ho as [->|Ho]; auto.
+                 rewrite Nat.eqb_refl in F1. discriminate.
+        -- apply NoDup_app_disj; auto. intros x Ha Hb. specialize (Fe _ Ha).
+           destruct (Fr _ Hb) as [Hr | (o & Ho & ->)]; [exact (in_rng_disj _ _ _ _ Fe Hr)|].
+           apply in_rng_tmp in Fe. lia.
+Qed.
+
+Theorem tmp_fresh : forall p e k, dom p e = true ->
+  Forall (fun x => in_rng k (snd (rw p k e)) x = true) (tmp_targets (fst (rw p k e))).
+Proof. intros. apply (proj1 (tmp_targets_all p)); assumption. Qed.
+Theorem tmp_distinct : forall p e k, dom p e = true -> NoDup (tmp_targets (fst (rw p k e))).
+Proof. intros. apply (proj1 (tmp_targets_all p)); assumption. Qed.
